@@ -241,12 +241,22 @@ def run(ctx):
                   [("storage", s) for s in ["chunked", "gzip"]] + [("track_order", "on"), ("edges", "fixed")]
         for i in range(ctx.n(220)):
             g = writable_recipe(rng)
+            directed = None
+            if i < 10:
+                # directed: non-ASCII text in scalar string members (metadata values and keys, node names), once under
+                # every string encoding, alone and combined with random other choices
+                directed = ["vlen-utf8", "vlen-ascii", "fixed-utf8-nul", "fixed-ascii-nul", "fixed-utf8-space"][i % 5]
+                md = {"d": [["label", {"s": "Größe 5µm"}], ["多", {"s": "键盘 😀"}], ["plain", {"s": "ascii only"}]]}
+                g = {"type": "NIRGraph", "meta": md, "edges": [["é", "é"]],
+                     "nodes": [["é", {"type": "Scale", "kwargs": [["scale", gen.arr(rng, [2], "<f8")], ["metadata", md]]}]]}
             try:
                 ref = impl_construct(g)
                 bio = io.BytesIO(); nir.write(bio, ref)      # in the domain of C01 only if write accepts it
             except Exception:
                 ctx.count("outside_domain"); continue
             fixed = dict([singles[i % len(singles)]]) if i % 2 == 0 else {}
+            if directed:
+                fixed = {"str": directed}
             enc = Enc(rng, fixed)
             path = os.path.join(tmpdir, "enc.nir")
             case = {"op": "encoded", "graph": g, "fixed": fixed, "seed_index": i}
